@@ -154,8 +154,22 @@ def _num(x):
     return x
 
 
+def build_dataset(w):
+    import xarray as xr
+
+    def arr(x):
+        data = [(_num(y) if y is not None else 0) for y in x["data"]]
+        return np.array(data, dtype=x["dtype"]).reshape(x["shape"])
+    ds = xr.Dataset({k: (v["dims"], arr(v["value"])) for k, v in w["vars"].items()},
+                    coords={k: arr(v) for k, v in w["coords"].items()})
+    ds.attrs = dict(w.get("attrs", {}))
+    return ds
+
+
 def build_arg(ty, w):
     """witness json -> concrete python/numpy argument for a declared type"""
+    if isinstance(w, dict) and w.get("__dataset__"):
+        return build_dataset(w)
     if isinstance(ty, (list, tuple)):
         return tuple(build_arg(t, x) for t, x in zip(ty, w))
     if ty in ("int",):
@@ -397,6 +411,11 @@ def fuzz(rt, target, n, seed, contract=None, time_budget=30.0):
 
 
 def summarize_full(v):
+    if hasattr(v, "data_vars") and hasattr(v, "coords"):  # xarray.Dataset
+        return {"__dataset__": True,
+                "vars": {k: {"dims": list(v[k].dims), "value": summarize_full(np.asarray(v[k].data))} for k in v.data_vars},
+                "coords": {k: summarize_full(np.asarray(v.coords[k].data)) for k in v.coords},
+                "attrs": {k: summarize_full(x) if isinstance(x, (np.ndarray, np.generic, float)) else (x if isinstance(x, (int, str, bool, type(None))) else repr(x)) for k, x in v.attrs.items()}}
     if isinstance(v, np.ndarray):
         return {"dtype": str(v.dtype), "shape": list(v.shape),
                 "data": ["nan" if (isinstance(x, float) and x != x) else x for x in v.ravel().tolist()]}
